@@ -95,6 +95,7 @@ package gltf
 //@   props C06
 //@   modifies w, w.bitW, w.bitW.buf, w.accessors, w.bufferViews, ghost written
 //@   requires wOK(w) && data != nil
+//@   requires finite_values: forall j int :: 0 <= j && j < len(data.data) ==> 0.0 - math.MaxFloat64 <= data.data[j].X() && data.data[j].X() <= math.MaxFloat64 && 0.0 - math.MaxFloat64 <= data.data[j].Y() && data.data[j].Y() <= math.MaxFloat64 && 0.0 - math.MaxFloat64 <= data.data[j].Z() && data.data[j].Z() <= math.MaxFloat64 && 0.0 - math.MaxFloat64 <= data.data[j].W() && data.data[j].W() <= math.MaxFloat64
 //@   requires written_component_types: accessorComponentType == AccessorComponentType_FLOAT || accessorComponentType == AccessorComponentType_UNSIGNED_BYTE
 //@   ensures still_ok: wOK(w) && w.bitW == old(w.bitW) && w.bitW.out == old(w.bitW.out)
 //@   ensures count_tracks_the_buffer: w.bitW.err == nil ==> written(w.bitW.out) - w.bytesWritten == old(written(w.bitW.out)) - old(w.bytesWritten)
@@ -106,19 +107,36 @@ package gltf
 //@   ensures accessor_points_at_the_view: lastAccessor(w).BufferView != nil && deref(lastAccessor(w).BufferView) == old(len(w.bufferViews)) && lastAccessor(w).Count == len(data.data)
 //@   ensures accessor_fills_the_view: lastAccessor(w).Count * 4 * lastAccessor(w).ComponentType.Size() == lastView(w).ByteLength && lastAccessor(w).ComponentType == accessorComponentType
 //@   ensures bounds_have_one_entry_per_component: len(lastAccessor(w).Min) == 4 && len(lastAccessor(w).Max) == 4
+//@   ensures declared_bounds_enclose_the_data: forall j int :: 0 <= j && j < len(data.data) ==> lastAccessor(w).Min[0] <= data.data[j].X() && data.data[j].X() <= lastAccessor(w).Max[0] && lastAccessor(w).Min[1] <= data.data[j].Y() && data.data[j].Y() <= lastAccessor(w).Max[1] && lastAccessor(w).Min[2] <= data.data[j].Z() && data.data[j].Z() <= lastAccessor(w).Max[2] && lastAccessor(w).Min[3] <= data.data[j].W() && data.data[j].W() <= lastAccessor(w).Max[3]
+//@   ensures declared_max_x_is_attained: len(data.data) > 0 ==> (exists j int :: 0 <= j && j < len(data.data) && data.data[j].X() == lastAccessor(w).Max[0])
+//@   ensures declared_min_x_is_attained: len(data.data) > 0 ==> (exists j int :: 0 <= j && j < len(data.data) && data.data[j].X() == lastAccessor(w).Min[0])
+//@   ensures declared_max_y_is_attained: len(data.data) > 0 ==> (exists j int :: 0 <= j && j < len(data.data) && data.data[j].Y() == lastAccessor(w).Max[1])
+//@   ensures declared_min_y_is_attained: len(data.data) > 0 ==> (exists j int :: 0 <= j && j < len(data.data) && data.data[j].Y() == lastAccessor(w).Min[1])
+//@   ensures declared_max_z_is_attained: len(data.data) > 0 ==> (exists j int :: 0 <= j && j < len(data.data) && data.data[j].Z() == lastAccessor(w).Max[2])
+//@   ensures declared_min_z_is_attained: len(data.data) > 0 ==> (exists j int :: 0 <= j && j < len(data.data) && data.data[j].Z() == lastAccessor(w).Min[2])
+//@   ensures declared_max_w_is_attained: len(data.data) > 0 ==> (exists j int :: 0 <= j && j < len(data.data) && data.data[j].W() == lastAccessor(w).Max[3])
+//@   ensures declared_min_w_is_attained: len(data.data) > 0 ==> (exists j int :: 0 <= j && j < len(data.data) && data.data[j].W() == lastAccessor(w).Min[3])
+//@   ensures earlier_entries_kept: forall k int :: 0 <= k && k < old(len(w.bufferViews)) ==> w.bufferViews[k] == old(w.bufferViews[k])
 //@   loop 1:
 //@     invariant 0 <= i && i <= len(data.data) && wOK(w) && w.bitW == old(w.bitW) && w.bitW.out == old(w.bitW.out) && w.bitW.buf == old(w.bitW.buf)
 //@     invariant w.bitW.err == nil ==> written(w.bitW.out) == old(written(w.bitW.out)) + 16 * i
 //@     invariant w.bytesWritten == old(w.bytesWritten) && w.accessors == old(w.accessors) && w.bufferViews == old(w.bufferViews)
+//@     invariant seeds: i == 0 ==> min.X() == math.MaxFloat64 && max.X() == 0.0 - math.MaxFloat64 && min.Y() == math.MaxFloat64 && max.Y() == 0.0 - math.MaxFloat64 && min.Z() == math.MaxFloat64 && max.Z() == 0.0 - math.MaxFloat64 && min.W() == math.MaxFloat64 && max.W() == 0.0 - math.MaxFloat64
+//@     invariant bounds_so_far: forall j int :: 0 <= j && j < i ==> min.X() <= data.data[j].X() && data.data[j].X() <= max.X() && min.Y() <= data.data[j].Y() && data.data[j].Y() <= max.Y() && min.Z() <= data.data[j].Z() && data.data[j].Z() <= max.Z() && min.W() <= data.data[j].W() && data.data[j].W() <= max.W()
+//@     invariant attained_so_far: i > 0 ==> (exists j int :: 0 <= j && j < i && data.data[j].X() == max.X()) && (exists j int :: 0 <= j && j < i && data.data[j].X() == min.X()) && (exists j int :: 0 <= j && j < i && data.data[j].Y() == max.Y()) && (exists j int :: 0 <= j && j < i && data.data[j].Y() == min.Y()) && (exists j int :: 0 <= j && j < i && data.data[j].Z() == max.Z()) && (exists j int :: 0 <= j && j < i && data.data[j].Z() == min.Z()) && (exists j int :: 0 <= j && j < i && data.data[j].W() == max.W()) && (exists j int :: 0 <= j && j < i && data.data[j].W() == min.W())
 //@   loop 2:
 //@     invariant 0 <= i && i <= len(data.data) && wOK(w) && w.bitW == old(w.bitW) && w.bitW.out == old(w.bitW.out) && w.bitW.buf == old(w.bitW.buf)
 //@     invariant w.bitW.err == nil ==> written(w.bitW.out) == old(written(w.bitW.out)) + 4 * i
 //@     invariant w.bytesWritten == old(w.bytesWritten) && w.accessors == old(w.accessors) && w.bufferViews == old(w.bufferViews)
+//@     invariant seeds: i == 0 ==> min.X() == math.MaxFloat64 && max.X() == 0.0 - math.MaxFloat64 && min.Y() == math.MaxFloat64 && max.Y() == 0.0 - math.MaxFloat64 && min.Z() == math.MaxFloat64 && max.Z() == 0.0 - math.MaxFloat64 && min.W() == math.MaxFloat64 && max.W() == 0.0 - math.MaxFloat64
+//@     invariant bounds_so_far: forall j int :: 0 <= j && j < i ==> min.X() <= data.data[j].X() && data.data[j].X() <= max.X() && min.Y() <= data.data[j].Y() && data.data[j].Y() <= max.Y() && min.Z() <= data.data[j].Z() && data.data[j].Z() <= max.Z() && min.W() <= data.data[j].W() && data.data[j].W() <= max.W()
+//@     invariant attained_so_far: i > 0 ==> (exists j int :: 0 <= j && j < i && data.data[j].X() == max.X()) && (exists j int :: 0 <= j && j < i && data.data[j].X() == min.X()) && (exists j int :: 0 <= j && j < i && data.data[j].Y() == max.Y()) && (exists j int :: 0 <= j && j < i && data.data[j].Y() == min.Y()) && (exists j int :: 0 <= j && j < i && data.data[j].Z() == max.Z()) && (exists j int :: 0 <= j && j < i && data.data[j].Z() == min.Z()) && (exists j int :: 0 <= j && j < i && data.data[j].W() == max.W()) && (exists j int :: 0 <= j && j < i && data.data[j].W() == min.W())
 
 //@ func Writer.WriteVector3
 //@   props C06
 //@   modifies w, w.bitW, w.bitW.buf, w.accessors, w.bufferViews, ghost written
 //@   requires wOK(w) && data != nil
+//@   requires finite_values: forall j int :: 0 <= j && j < len(data.data) ==> 0.0 - math.MaxFloat64 <= data.data[j].X() && data.data[j].X() <= math.MaxFloat64 && 0.0 - math.MaxFloat64 <= data.data[j].Y() && data.data[j].Y() <= math.MaxFloat64 && 0.0 - math.MaxFloat64 <= data.data[j].Z() && data.data[j].Z() <= math.MaxFloat64
 //@   requires written_component_types: accessorComponentType == AccessorComponentType_FLOAT || accessorComponentType == AccessorComponentType_UNSIGNED_BYTE
 //@   ensures still_ok: wOK(w) && w.bitW == old(w.bitW) && w.bitW.out == old(w.bitW.out)
 //@   ensures count_tracks_the_buffer: w.bitW.err == nil ==> written(w.bitW.out) - w.bytesWritten == old(written(w.bitW.out)) - old(w.bytesWritten)
@@ -130,19 +148,34 @@ package gltf
 //@   ensures accessor_points_at_the_view: lastAccessor(w).BufferView != nil && deref(lastAccessor(w).BufferView) == old(len(w.bufferViews)) && lastAccessor(w).Count == len(data.data)
 //@   ensures accessor_fills_the_view: lastAccessor(w).Count * 3 * lastAccessor(w).ComponentType.Size() == lastView(w).ByteLength && lastAccessor(w).ComponentType == accessorComponentType
 //@   ensures bounds_have_one_entry_per_component: len(lastAccessor(w).Min) == 3 && len(lastAccessor(w).Max) == 3
+//@   ensures declared_bounds_enclose_the_data: forall j int :: 0 <= j && j < len(data.data) ==> lastAccessor(w).Min[0] <= data.data[j].X() && data.data[j].X() <= lastAccessor(w).Max[0] && lastAccessor(w).Min[1] <= data.data[j].Y() && data.data[j].Y() <= lastAccessor(w).Max[1] && lastAccessor(w).Min[2] <= data.data[j].Z() && data.data[j].Z() <= lastAccessor(w).Max[2]
+//@   ensures declared_max_x_is_attained: len(data.data) > 0 ==> (exists j int :: 0 <= j && j < len(data.data) && data.data[j].X() == lastAccessor(w).Max[0])
+//@   ensures declared_min_x_is_attained: len(data.data) > 0 ==> (exists j int :: 0 <= j && j < len(data.data) && data.data[j].X() == lastAccessor(w).Min[0])
+//@   ensures declared_max_y_is_attained: len(data.data) > 0 ==> (exists j int :: 0 <= j && j < len(data.data) && data.data[j].Y() == lastAccessor(w).Max[1])
+//@   ensures declared_min_y_is_attained: len(data.data) > 0 ==> (exists j int :: 0 <= j && j < len(data.data) && data.data[j].Y() == lastAccessor(w).Min[1])
+//@   ensures declared_max_z_is_attained: len(data.data) > 0 ==> (exists j int :: 0 <= j && j < len(data.data) && data.data[j].Z() == lastAccessor(w).Max[2])
+//@   ensures declared_min_z_is_attained: len(data.data) > 0 ==> (exists j int :: 0 <= j && j < len(data.data) && data.data[j].Z() == lastAccessor(w).Min[2])
+//@   ensures earlier_entries_kept: forall k int :: 0 <= k && k < old(len(w.bufferViews)) ==> w.bufferViews[k] == old(w.bufferViews[k])
 //@   loop 1:
 //@     invariant 0 <= i && i <= len(data.data) && wOK(w) && w.bitW == old(w.bitW) && w.bitW.out == old(w.bitW.out) && w.bitW.buf == old(w.bitW.buf)
 //@     invariant w.bitW.err == nil ==> written(w.bitW.out) == old(written(w.bitW.out)) + 12 * i
 //@     invariant w.bytesWritten == old(w.bytesWritten) && w.accessors == old(w.accessors) && w.bufferViews == old(w.bufferViews)
+//@     invariant seeds: i == 0 ==> min.X() == math.MaxFloat64 && max.X() == 0.0 - math.MaxFloat64 && min.Y() == math.MaxFloat64 && max.Y() == 0.0 - math.MaxFloat64 && min.Z() == math.MaxFloat64 && max.Z() == 0.0 - math.MaxFloat64
+//@     invariant bounds_so_far: forall j int :: 0 <= j && j < i ==> min.X() <= data.data[j].X() && data.data[j].X() <= max.X() && min.Y() <= data.data[j].Y() && data.data[j].Y() <= max.Y() && min.Z() <= data.data[j].Z() && data.data[j].Z() <= max.Z()
+//@     invariant attained_so_far: i > 0 ==> (exists j int :: 0 <= j && j < i && data.data[j].X() == max.X()) && (exists j int :: 0 <= j && j < i && data.data[j].X() == min.X()) && (exists j int :: 0 <= j && j < i && data.data[j].Y() == max.Y()) && (exists j int :: 0 <= j && j < i && data.data[j].Y() == min.Y()) && (exists j int :: 0 <= j && j < i && data.data[j].Z() == max.Z()) && (exists j int :: 0 <= j && j < i && data.data[j].Z() == min.Z())
 //@   loop 2:
 //@     invariant 0 <= i && i <= len(data.data) && wOK(w) && w.bitW == old(w.bitW) && w.bitW.out == old(w.bitW.out) && w.bitW.buf == old(w.bitW.buf)
 //@     invariant w.bitW.err == nil ==> written(w.bitW.out) == old(written(w.bitW.out)) + 3 * i
 //@     invariant w.bytesWritten == old(w.bytesWritten) && w.accessors == old(w.accessors) && w.bufferViews == old(w.bufferViews)
+//@     invariant seeds: i == 0 ==> min.X() == math.MaxFloat64 && max.X() == 0.0 - math.MaxFloat64 && min.Y() == math.MaxFloat64 && max.Y() == 0.0 - math.MaxFloat64 && min.Z() == math.MaxFloat64 && max.Z() == 0.0 - math.MaxFloat64
+//@     invariant bounds_so_far: forall j int :: 0 <= j && j < i ==> min.X() <= data.data[j].X() && data.data[j].X() <= max.X() && min.Y() <= data.data[j].Y() && data.data[j].Y() <= max.Y() && min.Z() <= data.data[j].Z() && data.data[j].Z() <= max.Z()
+//@     invariant attained_so_far: i > 0 ==> (exists j int :: 0 <= j && j < i && data.data[j].X() == max.X()) && (exists j int :: 0 <= j && j < i && data.data[j].X() == min.X()) && (exists j int :: 0 <= j && j < i && data.data[j].Y() == max.Y()) && (exists j int :: 0 <= j && j < i && data.data[j].Y() == min.Y()) && (exists j int :: 0 <= j && j < i && data.data[j].Z() == max.Z()) && (exists j int :: 0 <= j && j < i && data.data[j].Z() == min.Z())
 
 //@ func Writer.WriteVector2
 //@   props C06
 //@   modifies w, w.bitW, w.bitW.buf, w.accessors, w.bufferViews, ghost written
 //@   requires wOK(w) && data != nil
+//@   requires finite_values: forall j int :: 0 <= j && j < len(data.data) ==> 0.0 - math.MaxFloat64 <= data.data[j].X() && data.data[j].X() <= math.MaxFloat64 && 0.0 - math.MaxFloat64 <= data.data[j].Y() && data.data[j].Y() <= math.MaxFloat64
 //@   requires written_component_types: accessorComponentType == AccessorComponentType_FLOAT || accessorComponentType == AccessorComponentType_UNSIGNED_BYTE
 //@   ensures still_ok: wOK(w) && w.bitW == old(w.bitW) && w.bitW.out == old(w.bitW.out)
 //@   ensures count_tracks_the_buffer: w.bitW.err == nil ==> written(w.bitW.out) - w.bytesWritten == old(written(w.bitW.out)) - old(w.bytesWritten)
@@ -154,14 +187,29 @@ package gltf
 //@   ensures accessor_points_at_the_view: lastAccessor(w).BufferView != nil && deref(lastAccessor(w).BufferView) == old(len(w.bufferViews)) && lastAccessor(w).Count == len(data.data)
 //@   ensures accessor_fills_the_view: lastAccessor(w).Count * 2 * lastAccessor(w).ComponentType.Size() == lastView(w).ByteLength && lastAccessor(w).ComponentType == accessorComponentType
 //@   ensures bounds_have_one_entry_per_component: len(lastAccessor(w).Min) == 2 && len(lastAccessor(w).Max) == 2
+//@   ensures declared_bounds_enclose_the_data: forall j int :: 0 <= j && j < len(data.data) ==>
+//@       lastAccessor(w).Min[0] <= data.data[j].X() && data.data[j].X() <= lastAccessor(w).Max[0] && lastAccessor(w).Min[1] <= data.data[j].Y() && data.data[j].Y() <= lastAccessor(w).Max[1]
+//@   ensures declared_max_x_is_attained: len(data.data) > 0 ==> (exists j int :: 0 <= j && j < len(data.data) && data.data[j].X() == lastAccessor(w).Max[0])
+//@   ensures declared_min_x_is_attained: len(data.data) > 0 ==> (exists j int :: 0 <= j && j < len(data.data) && data.data[j].X() == lastAccessor(w).Min[0])
+//@   ensures declared_max_y_is_attained: len(data.data) > 0 ==> (exists j int :: 0 <= j && j < len(data.data) && data.data[j].Y() == lastAccessor(w).Max[1])
+//@   ensures declared_min_y_is_attained: len(data.data) > 0 ==> (exists j int :: 0 <= j && j < len(data.data) && data.data[j].Y() == lastAccessor(w).Min[1])
+//@   ensures earlier_entries_kept: forall k int :: 0 <= k && k < old(len(w.bufferViews)) ==> w.bufferViews[k] == old(w.bufferViews[k])
 //@   loop 1:
 //@     invariant 0 <= i && i <= len(data.data) && wOK(w) && w.bitW == old(w.bitW) && w.bitW.out == old(w.bitW.out) && w.bitW.buf == old(w.bitW.buf)
 //@     invariant w.bitW.err == nil ==> written(w.bitW.out) == old(written(w.bitW.out)) + 8 * i
 //@     invariant w.bytesWritten == old(w.bytesWritten) && w.accessors == old(w.accessors) && w.bufferViews == old(w.bufferViews)
+//@     invariant seeds: i == 0 ==> min.X() == math.MaxFloat64 && min.Y() == math.MaxFloat64 && max.X() == 0.0 - math.MaxFloat64 && max.Y() == 0.0 - math.MaxFloat64
+//@     invariant bounds_so_far: forall j int :: 0 <= j && j < i ==> min.X() <= data.data[j].X() && data.data[j].X() <= max.X() && min.Y() <= data.data[j].Y() && data.data[j].Y() <= max.Y()
+//@     invariant attained_so_far: i > 0 ==> (exists j int :: 0 <= j && j < i && data.data[j].X() == max.X()) && (exists j int :: 0 <= j && j < i && data.data[j].X() == min.X()) &&
+//@       (exists j int :: 0 <= j && j < i && data.data[j].Y() == max.Y()) && (exists j int :: 0 <= j && j < i && data.data[j].Y() == min.Y())
 //@   loop 2:
 //@     invariant 0 <= i && i <= len(data.data) && wOK(w) && w.bitW == old(w.bitW) && w.bitW.out == old(w.bitW.out) && w.bitW.buf == old(w.bitW.buf)
 //@     invariant w.bitW.err == nil ==> written(w.bitW.out) == old(written(w.bitW.out)) + 2 * i
 //@     invariant w.bytesWritten == old(w.bytesWritten) && w.accessors == old(w.accessors) && w.bufferViews == old(w.bufferViews)
+//@     invariant seeds: i == 0 ==> min.X() == math.MaxFloat64 && min.Y() == math.MaxFloat64 && max.X() == 0.0 - math.MaxFloat64 && max.Y() == 0.0 - math.MaxFloat64
+//@     invariant bounds_so_far: forall j int :: 0 <= j && j < i ==> min.X() <= data.data[j].X() && data.data[j].X() <= max.X() && min.Y() <= data.data[j].Y() && data.data[j].Y() <= max.Y()
+//@     invariant attained_so_far: i > 0 ==> (exists j int :: 0 <= j && j < i && data.data[j].X() == max.X()) && (exists j int :: 0 <= j && j < i && data.data[j].X() == min.X()) &&
+//@       (exists j int :: 0 <= j && j < i && data.data[j].Y() == max.Y()) && (exists j int :: 0 <= j && j < i && data.data[j].Y() == min.Y())
 
 // GLB container: 12-byte header, JSON chunk padded with spaces to a multiple of four, optional BIN chunk padded
 // with zeros.  The declared total length is the number of bytes handed to the output.  "exit" clauses are
